@@ -13,6 +13,7 @@ result no longer depends on the fuel and is not "still running".
 -/
 import Sqfs.Proofs.XfrmIoErr
 import Sqfs.Proofs.XfrmProbe
+import Sqfs.Proofs.XfrmSync
 namespace Sqfs.C15
 open Sqfs.Xfrm Sqfs.Xfrm.Spec
 
@@ -138,7 +139,10 @@ theorem istream_transparent_stream (S : StreamDecContract C Dec) {bufsz : Nat} (
     (by simpa [iInit] using Link.refl xs.flatten 0) hw
   rcases hpost with ⟨_, hK⟩ | ⟨st, acc, eof, rfl, hp, he, hl⟩
   · exact absurd rfl hK
-  · exact ⟨f0, st, acc, eof, hrun, hp.zero, fun h => (he h).2, fun h => by simpa using hl h⟩
+  · exact ⟨f0, st, acc, eof, hrun, hp.zero, fun h => (he h).2, fun h => by
+      have := hl
+      rw [takingRounds_all h] at this
+      simpa using this⟩
 
 example := istream_transparent_stream (streamOfDec (Toy.decContract exP)) (bufsz := 4) (by decide) exMembers exScript exReads
   exReads_want
@@ -183,9 +187,10 @@ theorem truncated_is_error_stream (S : StreamDecContract C Dec) {bufsz : Nat} (h
     rcases hpost with ⟨h, _⟩ | ⟨st, acc, eof, rfl, hp, he, hl⟩
     · exact h
     · exfalso
-      rcases hl htake with h | h
+      rcases hl with h | h
       · exact absurd (he h).1 (by decide)
       · have := hp.length_le
+        rw [takingRounds_all htake] at h
         simp only [List.length_nil, Nat.zero_add] at h
         omega
 
@@ -236,11 +241,112 @@ theorem corrupt_is_error (S : StreamDecErrContract C Dec) {bufsz : Nat} (hb : 0 
     rcases hpost with ⟨h, _⟩ | ⟨st, acc, eof, rfl, hp, he, hl⟩
     · exact h
     · exfalso
-      rcases hl htake with h | h
+      rcases hl with h | h
       · exact absurd (he h).1 (by decide)
       · have := hp.length_le
+        rw [takingRounds_all htake] at h
         simp only [List.length_nil, Nat.zero_add] at h
         omega
+
+/-! ### the reader: one that reads to the end of the stream sees the error, one that stops need not
+
+`truncated_is_error*` / `corrupt_is_error` bind a reader only as far as it reads: their conclusion is "the error, **or** the run
+has not been told that the data is over".  A reader that stops calling `get_buffered_data` — the tar reader stops at the
+end-of-archive marker — is in the second case, and the error that the decoder would report on the rest (a check sum in the
+stream's trailer, a missing trailer) is never raised: `Sqfs.C15.Witness.stopping_reader_misses_the_error` (`Sqfs/Witness/C15.lean`) is a
+concrete run, and the tar2sqfs of the current tree accepts such archives (finding `unread-tail-accepted:*`).  The three theorems
+below are the other half: **whatever** a reader did before (`ops`), once it goes on to read the stream to its end (`drainOps`:
+`get_buffered_data(1)` / `advance_buffer(size)`, `n` rounds) it gets `SQFS_ERROR_COMPRESSOR` on a truncated or corrupted input —
+after at most `|contents| (+ budget) + 1` rounds — and a regular end-of-stream with exactly the contents on a valid one.  This is
+what the repair proposal `fixes/C15-drain-compressed-input.patch` makes the tar iterator do after the end-of-archive marker. -/
+
+theorem drainOps_want (bufsz n : Nat) (ops : List (Nat × Nat)) (hw : ∀ op ∈ ops, 0 < op.1) :
+    ∀ op ∈ ops ++ drainOps bufsz n, 0 < op.1 := by
+  intro op hop
+  rcases List.mem_append.1 hop with h | h
+  · exact hw op h
+  · rw [List.eq_of_mem_replicate h]; exact Nat.one_pos
+
+/-- **truncated input, reader that reads to the end**: the error, whatever was read before. -/
+theorem truncated_is_error_for_draining_reader (S : StreamDecContract C Dec) {bufsz : Nat} (hb : 0 < bufsz) {ms xs : List Bytes}
+    (hms : Members Dec ms xs) {t t' xT : Bytes} (ht : t ≠ []) (ht' : t' ≠ []) (hcut : Dec (t ++ t') = some xT)
+    (script : List Nat) (ops : List (Nat × Nat)) (hw : ∀ op ∈ ops, 0 < op.1) (n : Nat) (hn : (xs.flatten ++ xT).length < n) :
+    ∃ fuel, ∀ f, fuel ≤ f →
+      iRead C bufsz f (iInit C ⟨ms.flatten ++ t, script⟩) (ops ++ drainOps bufsz n) [] = some (.error errCompressor) := by
+  have hI : IInv S Kind.truncated bufsz (iInit C ⟨ms.flatten ++ t, script⟩) (xs.flatten ++ xT) 0 :=
+    ⟨Nat.le_refl _, Nat.zero_le _, by simpa [iInit] using S.start_truncated hms ht ht' hcut⟩
+  obtain ⟨f0, r, hrun, hpost⟩ := iRead_spec S hb (xs.flatten ++ xT) 0 (fun _ => rfl) (ops ++ drainOps bufsz n) _ _ _ [] hI
+    (by simpa [iInit] using Link.refl (xs.flatten ++ xT) 0) (drainOps_want bufsz n ops hw)
+  rcases hpost with ⟨h, _⟩ | ⟨st, acc, eof, rfl, hp, he, hl⟩
+  · exact ⟨f0, fun f hf => by rw [hrun f hf, h]⟩
+  · exfalso
+    rcases hl with h | h
+    · exact absurd (he h).1 (by decide)
+    · have := hp.length_le
+      rw [takingRounds_append, drainOps, takingRounds_replicate n 1 bufsz hb] at h
+      simp only [List.length_nil, Nat.zero_add] at h
+      omega
+
+/-- **corrupted input, reader that reads to the end**: the error, whatever was read before — in particular when everything the
+reader wanted had already been delivered (damaged contents whose check sum stands in the trailer of the compressed stream). -/
+theorem corrupt_is_error_for_draining_reader (S : StreamDecErrContract C Dec) {bufsz : Nat} (hb : 0 < bufsz) {ms xs : List Bytes}
+    (hms : Members Dec ms xs) {c : Bytes} (hc : Dead Dec c)
+    (script : List Nat) (ops : List (Nat × Nat)) (hw : ∀ op ∈ ops, 0 < op.1) (n : Nat)
+    (hn : xs.flatten.length + S.budget c.length < n) :
+    ∃ fuel, ∀ f, fuel ≤ f →
+      iRead C bufsz f (iInit C ⟨ms.flatten ++ c, script⟩) (ops ++ drainOps bufsz n) [] = some (.error errCompressor) := by
+  have hI : IInv S.toStreamDecContract Kind.corrupt bufsz (iInit C ⟨ms.flatten ++ c, script⟩) xs.flatten (S.budget c.length) :=
+    ⟨Nat.le_refl _, Nat.zero_le _, by simpa [iInit] using S.start_corrupt hms hc⟩
+  obtain ⟨f0, r, hrun, hpost⟩ := iRead_spec S.toStreamDecContract hb xs.flatten (S.budget c.length) (fun h => absurd rfl h)
+    (ops ++ drainOps bufsz n) _ _ _ [] hI
+    (by simpa [iInit] using Link.refl xs.flatten (S.budget c.length)) (drainOps_want bufsz n ops hw)
+  rcases hpost with ⟨h, _⟩ | ⟨st, acc, eof, rfl, hp, he, hl⟩
+  · exact ⟨f0, fun f hf => by rw [hrun f hf, h]⟩
+  · exfalso
+    rcases hl with h | h
+    · exact absurd (he h).1 (by decide)
+    · have := hp.length_le
+      rw [takingRounds_append, drainOps, takingRounds_replicate n 1 bufsz hb] at h
+      simp only [List.length_nil, Nat.zero_add] at h
+      omega
+
+/-- **valid input, reader that reads to the end**: no error; the regular end of the stream is reported, after exactly the
+concatenated contents (so reading on after the end-of-archive marker rejects nothing that is intact). -/
+theorem valid_stream_drains_to_eof (S : StreamDecContract C Dec) {bufsz : Nat} (hb : 0 < bufsz) {ms xs : List Bytes}
+    (hms : Members Dec ms xs) (script : List Nat) (ops : List (Nat × Nat)) (hw : ∀ op ∈ ops, 0 < op.1) (n : Nat)
+    (hn : xs.flatten.length < n) :
+    ∃ fuel st, ∀ f, fuel ≤ f →
+      iRead C bufsz f (iInit C ⟨ms.flatten, script⟩) (ops ++ drainOps bufsz n) [] = some (.ok (st, xs.flatten, true)) := by
+  have hI : IInv S Kind.valid bufsz (iInit C ⟨ms.flatten, script⟩) xs.flatten 0 :=
+    ⟨Nat.le_refl _, Nat.zero_le _, by simpa [iInit] using S.start_valid hms⟩
+  obtain ⟨f0, r, hrun, hpost⟩ := iRead_spec S hb xs.flatten 0 (fun _ => rfl) (ops ++ drainOps bufsz n) _ _ _ [] hI
+    (by simpa [iInit] using Link.refl xs.flatten 0) (drainOps_want bufsz n ops hw)
+  rcases hpost with ⟨_, hK⟩ | ⟨st, acc, eof, rfl, hp, he, hl⟩
+  · exact absurd rfl hK
+  · rcases hl with h | h
+    · subst h
+      exact ⟨f0, st, fun f hf => by rw [hrun f hf, (he rfl).2]⟩
+    · exfalso
+      have := hp.length_le
+      rw [takingRounds_append, drainOps, takingRounds_replicate n 1 bufsz hb] at h
+      simp only [List.length_nil, Nat.zero_add] at h
+      omega
+
+/-- the three applied to the toy codec: a reader that stopped after two rounds (`exReads.take 2`), then reads to the end -/
+example := truncated_is_error_for_draining_reader (streamOfDec (Toy.decContract exP)) (bufsz := 4) (by decide) exMembers exCut_ne
+  exCutRest_ne exCut_valid exScript (exReads.take 2) (fun op h => exReads_want op (List.mem_of_mem_take h)) 8 (by decide)
+example := valid_stream_drains_to_eof (streamOfDec (Toy.decContract exP)) (bufsz := 4) (by decide) exMembers exScript (exReads.take 2)
+  (fun op h => exReads_want op (List.mem_of_mem_take h)) 6 (by decide)
+/-- … and the runs themselves: the two members `ABC`, `DE` followed by a malformed marker, 5-byte buffer; the reader takes the five content
+bytes in two rounds and is **not** told about the damage (no error, no end-of-stream) — the same reader going on to the end gets the error -/
+example : (match iRead (Toy.decoder exP) 5 1000 (iInit (Toy.decoder exP) ⟨Toy.encode exA ++ Toy.encode exB ++ [2, 9, 9], exScript⟩)
+      [(3, 3), (2, 2)] [] with
+    | some (.ok (_, acc, eof)) => some (acc, eof)
+    | _ => none) = some ([65, 66, 67, 68, 69], false) := by decide
+example : (match iRead (Toy.decoder exP) 5 1000 (iInit (Toy.decoder exP) ⟨Toy.encode exA ++ Toy.encode exB ++ [2, 9, 9], exScript⟩)
+      ([(3, 3), (2, 2)] ++ drainOps 5 9) [] with
+    | some (.error e) => some e
+    | _ => none) = some errCompressor := by decide
 
 /--
 **process_data_meets_contract** (all four backends, both directions).
@@ -250,7 +356,8 @@ theorem corrupt_is_error (S : StreamDecErrContract C Dec) {bufsz : Nat} (hb : 0 
   least one byte consumed or produced, `STREAM_END` only to `FINISH` after all input, what was produced for a member decodes to
   what was consumed; `LibDecContract` for decompression on well-formed input: nothing beyond the member is consumed, output is
   produced as input is consumed, `STREAM_END` exactly at the end of the member, `total_in == 0` exactly when nothing of the
-  member has been consumed), the backend's `process_data` loop — `while ((in_size > 0 || flush_mode == FLUSH_FULL) && out_size > 0)`,
+  member has been consumed; both for the actions the wrappers pass, `fl ≠ Flush.sync` — see `library_conventions_ignore_flush_sync`),
+  the backend's `process_data` loop — `while ((in_size > 0 || flush_mode == FLUSH_FULL) && out_size > 0)`,
   the accounting, the mapping of return codes, the reset at the end of a member and the end-of-input rule
   `total_in == 0 ? END : ERROR` — always leaves within `in_size + out_size + 2` rounds and, as a codec, meets `EncContract` resp.
   `DecContract`.
@@ -270,7 +377,7 @@ theorem process_data_meets_contract {τ : Type} {L : Lib τ} {b : Backend} :
         (wrapProcess L b true s inp room fl).isSome = true) ∧
       Nonempty (EncContract (wrapCodec L b true) Dec)) ∧
     (∀ (hL : LibDecContract L b Dec),
-      (∀ {s : τ} {u v : Bytes} (w x tail inp : Bytes) (room : Nat) (fl : Flush), hL.R s u v → Dec (u ++ w) = some x →
+      (∀ {s : τ} {u v : Bytes} (w x tail inp : Bytes) (room : Nat) (fl : Flush), fl ≠ Flush.sync → hL.R s u v → Dec (u ++ w) = some x →
         IsPre inp (w ++ tail) → (wrapProcess L b false s inp room fl).isSome = true) ∧
       Nonempty (DecContract (wrapCodec L b false) Dec)) ∧
     (∀ {ζ : Type} {Z : ZLib ζ} (hZ : ZEncContract Z Dec),
@@ -288,8 +395,8 @@ theorem process_data_meets_contract {τ : Type} {L : Lib τ} {b : Backend} :
   · intro s x y fin inp room fl hR hP
     obtain ⟨r, hr, _⟩ := wrapProcess_enc_spec hL inp room fl hR hP
     simp [hr]
-  · intro s u v w x tail inp room fl hR hd hin
-    obtain ⟨r, hr, _⟩ := wrapProcess_dec_spec hL w x tail inp room fl hR hd hin
+  · intro s u v w x tail inp room fl hns hR hd hin
+    obtain ⟨r, hr, _⟩ := wrapProcess_dec_spec hL w x tail inp room fl hns hR hd hin
     simp [hr]
   · intro s x y fin inp room fl hR hP
     obtain ⟨st', ai, ao, res, hrun, _, _⟩ := zstdProcess_enc_spec hZ inp room fl hR hP
@@ -420,6 +527,10 @@ example := backend_corrupt_is_error (Toy.decLibContract exP .bzip2) (Toy.decLibE
   exMembers (toy_dead_example [9, 9]) exScript exReads exReads_want
 example := zstd_corrupt_is_error (Toy.decZLibContract exP) (Toy.decZLibErrContract exP) (bufsz := 3) (by decide) exMembers
   (toy_dead_example [9, 9]) exScript exReads exReads_want
+
+/-- the draining reader on the corrupted toy stream (5 content bytes, budget 3) -/
+example := corrupt_is_error_for_draining_reader (streamOfDecErr (Toy.decContract exP) (Toy.decErrContract exP)) (bufsz := 4) (by decide)
+  exMembers (toy_dead_example [9, 9]) exScript (exReads.take 2) (fun op h => exReads_want op (List.mem_of_mem_take h)) 9 (by decide)
 
 /-- hence: `sqfs2tar -c gzip|xz|bzip2`'s output stream is transparent for every library meeting the convention -/
 theorem backend_ostream_transparent {τ : Type} {L : Lib τ} {b : Backend} (hL : LibEncContract L b Dec) {bufsz : Nat}
@@ -648,6 +759,33 @@ theorem toy_library_meets_convention (P : Toy.Params) (b : Backend) :
     Nonempty (LibEncContract (Toy.encLib P b) b Toy.decode) ∧ Nonempty (LibDecContract (Toy.decLib P b) b Toy.decode) ∧
     Nonempty (ZEncContract (Toy.encZLib P) Toy.decode) ∧ Nonempty (ZDecContract (Toy.decZLib P) Toy.decode) :=
   ⟨⟨Toy.encLibContract P b⟩, ⟨Toy.decLibContract P b⟩, ⟨Toy.encZLibContract P⟩, ⟨Toy.decZLibContract P⟩⟩
+
+/--
+**The library conventions do not constrain `FLUSH_SYNC`** (review E, F2).  The clauses of `LibEncContract` / `LibDecContract` (and of
+the codec-level contracts) speak about the flush modes the wrappers pass — `FLUSH_NONE`, `FLUSH_FULL` — only: a library obtained from
+a conforming one by replacing its behaviour on `FLUSH_SYNC` with **anything** (`Lib.withSync L f`) still conforms.  So the facts that
+made the earlier formulation unsatisfiable for the real libraries (liblzma: `LZMA_FULL_FLUSH` is answered `LZMA_STREAM_END` by the
+encoder and `LZMA_PROG_ERROR` by the decoder; libbz2: `BZ_SEQUENCE_ERROR` after an unfinished `BZ_FLUSH`) are consistent with the
+conventions as they stand, and the `backend_*` theorems are not vacuous on their account.
+-/
+theorem library_conventions_ignore_flush_sync {τ : Type} {L : Lib τ} {b : Backend} (f : τ → Bytes → Nat → LibOut τ) :
+    (LibEncContract L b Dec → Nonempty (LibEncContract (L.withSync f) b Dec)) ∧
+    (LibDecContract L b Dec → Nonempty (LibDecContract (L.withSync f) b Dec)) :=
+  ⟨fun h => ⟨h.withSync f⟩, fun h => ⟨h.withSync f⟩⟩
+
+/-- instance: the toy libraries that answer `FLUSH_SYNC` the way liblzma does meet the conventions … -/
+example := (library_conventions_ignore_flush_sync (Dec := Toy.decode) (L := Toy.encLib exP .xz) (b := .xz) Toy.lzmaSyncEnc).1
+  (Toy.encLibContract exP .xz)
+example := (library_conventions_ignore_flush_sync (Dec := Toy.decode) (L := Toy.decLib exP .xz) (b := .xz) Toy.lzmaSyncDec).2
+  (Toy.decLibContract exP .xz)
+/-- … they do behave like liblzma there (the two facts from which `False` followed under the earlier clauses) … -/
+example : ((Toy.lzmaLikeEnc exP).call (Toy.lzmaLikeEnc exP).init [65] 10 Flush.sync).ret = LibRet.streamEnd := by decide
+example : ((Toy.lzmaLikeDec exP).call (Toy.lzmaLikeDec exP).init (Toy.encode exA) 10 Flush.sync).ret = LibRet.dataError := by decide
+/-- … and the backend theorems apply to them -/
+example := backend_ostream_transparent (Toy.lzmaLikeEncContract exP) (bufsz := 4) (by decide) exChunks
+example := backend_istream_transparent (Toy.lzmaLikeDecContract exP) (bufsz := 3) (by decide) exMembers exScript exReads exReads_want
+example := backend_truncated_is_error (Toy.lzmaLikeDecContract exP) (bufsz := 3) (by decide) exMembers exCut_ne exCutRest_ne
+  exCut_valid exScript exReads exReads_want
 
 /-- Non-vacuity: the toy codec (internal queue, limited intake and output granularity, any knob setting) meets
 the encoder contract with the toy format's one-shot decoder. -/
